@@ -577,6 +577,41 @@ func seqAt(marks []simnet.Mark, end int) int64 {
 	return 1 << 62
 }
 
+// EarlyReplyKeys returns the token keys of the echo / slow calls of the
+// connection whose Reply (not an Error) had been read completely by the
+// caller's endpoint before the Write that carried the call returned.
+func EarlyReplyKeys(cc *simnet.Conn) map[string]bool {
+	c2s, _ := cc.Sent()
+	s2c, _ := cc.Peer().Sent()
+	rets := cc.WriteReturns()
+	reads := cc.ReadMarks()
+	reqs, _, _ := ref.ParseStream(c2s)
+	resps, _, _ := ref.ParseStream(s2c)
+	replyRead := map[uint32]int64{}
+	for _, f := range resps {
+		if f.Type == ref.Reply {
+			if _, ok := replyRead[f.ID]; !ok {
+				if r := seqAt(reads, f.End); r > 0 {
+					replyRead[f.ID] = r
+				}
+			}
+		}
+	}
+	keys := map[string]bool{}
+	for _, f := range reqs {
+		if f.Type != ref.Call || (f.Action != ActEcho && f.Action != ActSlow) {
+			continue
+		}
+		t := seqAt(rets, f.End)
+		if r, ok := replyRead[f.ID]; ok && t > 0 && t < 1<<62 && r < t {
+			if tok, err := ref.DecodeToken(f.Payload); err == nil {
+				keys[tok.Key()] = true
+			}
+		}
+	}
+	return keys
+}
+
 // EarlyReplies counts, on the connection whose dialer side is cc, the calls
 // whose reply had been read by the caller's endpoint before the Write that
 // carried the call returned ("a reply that arrives before the send operation
